@@ -41,7 +41,8 @@ Join(c, ks, i, rev, w) ==
   ELSE (IF i > 1 THEN "," \o w ELSE "") \o Q(ks[i]) \o w \o ":" \o w \o RenderValue(c[ks[i]], rev, w) \o w
        \o Join(c, ks, i + 1, rev, w)
 
-Render(c, ks, rev, w) == "{" \o w \o Join(c, ks, 1, rev, w) \o "}"
+\* whitespace is insignificant around the whole document as well (a contract read from a file starts and ends with it)
+Render(c, ks, rev, w) == w \o "{" \o w \o Join(c, ks, 1, rev, w) \o "}" \o w
 
 SortedKeys(c) == SortSeq(SetToSeq(DOMAIN c), LAMBDA x, y : Rank(x) < Rank(y))
 KeyOrders(c)  == { s \in [1..Cardinality(DOMAIN c) -> DOMAIN c] : \A i, j \in DOMAIN s : i # j => s[i] # s[j] }
